@@ -843,6 +843,9 @@ func (e *Exec) callBuiltin(th *Thread, caller *Frame, site ssa.Instruction, b *s
 				return e.mkInt(int64(len(a.Elems)))
 			}
 		}
+		if po, ok := args[0].(*Poison); ok {
+			panic(unsupported("len of poisoned value: " + po.Why + " at " + e.pos(site)))
+		}
 		panic(unsupported(fmt.Sprintf("len of %T", args[0])))
 	case "cap":
 		switch x := args[0].(type) {
